@@ -16,6 +16,10 @@ CHECKS["C05"] = ("exploration", "5.C05", "seeded delivery schedules (segmentatio
   "Seeded search over pipelines x segmentations x connection interleavings x reply-side flow control; oracle: exactly one well-formed reply per request in order, of the expected kind, with promptness checked at sync points where the client stops sending and waits. Segmentations are sampled (with forced alignment to the 8192-byte read size).")
 CHECKS["C06"] = ("exploration", "5.C06", "hostile-input simulation: systematic boundary walk over the command table extracted from the source plus byte-level hostile frames, with panic/exit/deadlock/hang detection by the scheduler and an allocator seam",
   "Every server thread runs under the simulator, so a panic, exit(), deadlock (all threads futex-blocked) or hang (watchdog) is observed deterministically; the allocator seam records the largest single request and refuses absurd ones; a fresh connection must then be served and sentinel data be intact. The boundary walk is systematic over a stated finite catalogue (command x position x 50 values) spread over run indices; the rest is sampled.")
+CHECKS["C17"] = ("exploration", "5.C17", "simulated multi-connection histories against a server booted with requirepass; systematic walk over the command table x 5 pipeline positions; side-effect oracle through the storage accessor and a control connection",
+  "The whole command table (extracted from the source) is walked systematically over run indices in five positions and four segmentation styles; replies, unsolicited bytes on the unauthenticated socket, dataset, subscriber and replica tables are checked. Finite catalogue covered completely every 5*ceil(|table|/12) runs; segmentations and wrong passwords sampled.")
+CHECKS["C20"] = ("exploration", "5.C20", "in-process simulation where the schedule is the chunking of the byte stream: exhaustive enumeration of short strings over the protocol alphabet under all split points, seeded generation beyond, allocator seam and panic capture",
+  "All strings over a 21-symbol alphabet up to length 4 (quick) / 5 (thorough) are enumerated and fed under every single split point, byte-wise and in 3-way splits; frame trees of all RESP types are round-tripped; longer and mutated streams are sampled. The short-string part is exhaustive (evidence sets exhaustive=true when every slice ran), the rest is exploration.")
 NOT_APPLICABLE = []
 def main():
     checks = []
